@@ -56,7 +56,7 @@ type ReplayFile struct {
 }
 
 func (r *Run) writeReplay(v Violation) string {
-	dir := filepath.Join(r.Kit, "evidence", "replay")
+	dir := filepath.Join(r.evidenceDir(), "replay")
 	os.MkdirAll(dir, 0o755)
 	h := sha1.Sum([]byte(v.Prop + "|" + v.Key + "|" + v.Case))
 	p := filepath.Join(dir, fmt.Sprintf("%s-%x.json", v.Prop, h[:6]))
@@ -253,7 +253,7 @@ func (r *Run) writeEvidence(nviol, nknown, nkeys int, inconclusive []string) err
 	if err != nil {
 		return err
 	}
-	dir := filepath.Join(r.Kit, "evidence")
+	dir := r.evidenceDir()
 	os.MkdirAll(dir, 0o755)
 	tmp := filepath.Join(dir, r.Prop+".json.tmp")
 	if err := os.WriteFile(tmp, b, 0o644); err != nil {
@@ -274,4 +274,14 @@ func replay(path string) int {
 		return 3
 	}
 	return runCheckReplay(&rf)
+}
+
+// evidenceDir is /verif/evidence unless VERIF_EVIDENCE_DIR redirects it (used
+// by the mutant self-test so that runs against scratch copies never overwrite
+// the evidence of the real tree).
+func (r *Run) evidenceDir() string {
+	if d := os.Getenv("VERIF_EVIDENCE_DIR"); d != "" {
+		return d
+	}
+	return filepath.Join(r.Kit, "evidence")
 }
